@@ -7,6 +7,8 @@ import WowVerif.Model.Flag
 import WowVerif.Model.Enum
 import WowVerif.Model.Frame
 import WowVerif.Model.Geometry
+import WowVerif.Model.SemIO
+import Std.Data.HashMap
 namespace WowVerif.Driver
 
 def fnvStep (h : UInt64) (x : UInt64) : UInt64 := (h ^^^ x) * 0x100000001b3
@@ -368,6 +370,63 @@ def geoHandle (ws : List String) : Option String :=
       pure s!"{distanceBetween floatOps a b}"
   | ["geodist2", ax, ay, bx, by_] => do
       pure s!"{distance2d floatOps (← parseFloat? ax) (← parseFloat? ay) (← parseFloat? bx) (← parseFloat? by_)}"
+  | _ => none
+
+/-! ## specification semantics of containers (C01 family) -/
+structure DState where
+  corpus : Std.HashMap String (Nat × Sem.Members) := {}
+
+def showErr : Sem.Err → String
+  | .eof => "err eof"
+  | .enumValue n => s!"err enum {n}"
+  | .boolValue n => s!"err bool {n}"
+  | .dateTime n => s!"err datetime {n}"
+  | .level n => s!"err level {n}"
+  | .string => "err string"
+  | .noProgress => "err noprogress"
+  | .unsupported w => s!"unsupported {w}"
+  | .unboundVar i => s!"err unbound {i}"
+  | .trailing n => s!"err trailing {n}"
+
+def loadLine (st : DState) (line : String) : DState :=
+  match (line.trimAscii.toString.splitOn " ").filter (· ≠ "") with
+  | "container" :: key :: op :: toks =>
+    match op.toNat?, Sem.parseMembers toks with
+    | some op, some (ms, []) => { st with corpus := st.corpus.insert key (op, ms) }
+    | _, _ => st
+  | _ => st
+
+def semHandle (st : DState) (ws : List String) : Option String :=
+  match ws with
+  | "gen" :: key :: seed :: rest =>
+    match st.corpus.get? key, seed.toNat? with
+    | some (_, c), some seed =>
+      match Sem.firstPrim c with
+      | some p => some s!"unsupported {p}"
+      | none =>
+        if !Sem.wfMs c then some "notwf" else
+        let maxLen := match rest with | [m] => m.toNat?.getD 4 | _ => 4
+        match Sem.genContainer c seed maxLen with
+        | none => some "genfail"
+        | some vs => match Sem.encode c vs with
+          | none => some "encfail"
+          | some b => some s!"ok {if b.isEmpty then "-" else hexOf b}"
+    | none, _ => some "nokey"
+    | _, _ => some "bad-op"
+  | ["dec", key, hex] =>
+    match st.corpus.get? key, unhex hex with
+    | some (_, c), some bs =>
+      match Sem.firstPrim c with
+      | some p => some s!"unsupported {p}"
+      | none =>
+        match Sem.decode c bs with
+        | .error e => some (showErr e)
+        | .ok vs => match Sem.encode c vs with
+          | none => some "ok-noncanonical"
+          | some b => some s!"ok {if b.isEmpty then "-" else hexOf b} n={b.length}"
+    | none, _ => some "nokey"
+    | _, _ => some "bad-op"
+  | ["keys"] => some s!"{st.corpus.size}"
   | _ => none
 
 def handle (ws : List String) : String :=
